@@ -29,6 +29,7 @@ var awkwardTables = [][]string{
 	{"a.b/", "/a"},
 	{"a.b/a/", "/a"},
 	{"{g}.{g}.{g}/a", "a.{g}.b/a"},
+	{"{g}.a.b/", "{g}.{h}.a.b/", "{g}.{h}.{k}.a/"}, // F1 in lookupByDomain: two backtracks below a captured label
 	{"/a/{x}", "/a/b", "/a/*{y}"},
 	{"/*{x}", "/*{x}/b", "/a/*{y}/b"},
 	{"/a*{x}/b/", "/a{x}/b"},
@@ -41,7 +42,7 @@ var awkwardTables = [][]string{
 }
 
 var awkwardPaths = []string{"/a/b/ab/abc", "/a/b/a/", "/ab/a/a", "/a", "/b/", "/abb/", "/abc/", "/a/a/a/a", "/a/a/a/ab", "/ab", "/a/b/b", "/a/b/", "/ab/b", "/ab/b/"}
-var awkwardHosts = []string{"a.ab", "a.b.ab", "a.ab:8080", "aa.abb.abb", "a.b", "a.b.a", "a.b.b", "b.a.b"}
+var awkwardHosts = []string{"b.a.a.a", "a.ab", "a.b.ab", "a.ab:8080", "aa.abb.abb", "a.b", "a.b.a", "a.b.b", "b.a.b"}
 
 type matchGen struct {
 	Pool   []string
